@@ -162,7 +162,7 @@ def cli_case(ctx, rng, k):
             q = pool.setdefault((n, rng.randint(0, 1)), q)
         s = "".join(rng.choice("ACGTGGN") for _ in range(n))
         recs.append((f"r{i}", s, "".join(chr(x + base) for x in q)))
-    mode = rng.choice(["q1", "q2", "nextseq", "paired", "paired", "both", "both"])
+    mode = rng.choice(["q1", "q2", "nextseq", "paired", "paired", "both", "both", "r2only"])
     d = f"{ctx.scratch}/cli{k}"
     import os
     os.makedirs(d, exist_ok=True)
@@ -181,7 +181,9 @@ def cli_case(ctx, rng, k):
     hi = lambda lst: rng.choice([top - 1, top, top + 1, top + 2, 120, 1000]) if top_range else rng.choice(lst)
     if top_range:
         ctx.count("cli_runs_with_cutoffs_around_the_highest_quality")
-    if mode == "q1":
+    if mode == "r2only":
+        pass        # only -Q below: nothing trims R1
+    elif mode == "q1":
         cb = hi([5, 10, 20, 30]); argv += ["-q", str(cb)]
     elif mode in ("q2", "paired"):
         cf, cb = hi([0, 5, 10, 20]), hi([0, 5, 10, 20]); argv += ["-q", f"{cf},{cb}"]
@@ -192,8 +194,8 @@ def cli_case(ctx, rng, k):
     else:
         nc = hi([0, 1, 5, 10, 20]); argv += ["--nextseq-trim", str(nc)]
     cf2, cb2 = cf, cb
-    if mode == "paired":
-        if rng.random() < 0.7:
+    if mode in ("paired", "r2only"):
+        if rng.random() < 0.7 or mode == "r2only":
             cf2, cb2 = rng.choice([0, 5, 15]), rng.choice([8, 15, 25])
             argv += ["-Q", f"{cf2},{cb2}"]
         argv += ["-o", "out.fq", "-p", "out2.fq", "in.fq", "in.fq"]
@@ -208,17 +210,20 @@ def cli_case(ctx, rng, k):
         return
     total = [0, 0]
     outs = [fastx.read_records(f"{d}/out.fq")[1]]
-    cuts = [(cf, cb)]
-    if mode == "paired":
+    cuts = [(cf, cb) if mode != "r2only" else None]
+    if mode in ("paired", "r2only"):
         outs.append(fastx.read_records(f"{d}/out2.fq")[1]); cuts.append((cf2, cb2))
     nontrivial = False
-    for side, (out, (a, b)) in enumerate(zip(outs, cuts)):
+    for side, (out, cut) in enumerate(zip(outs, cuts)):
+        a, b = cut if cut is not None else (None, None)
         if len(out) != len(recs):
             ctx.violation("cli-count", f"{len(out)} records written for {len(recs)} input", case)
             continue
         for (name, s, qs), (on, os_, oq) in zip(recs, out):
             q = [ord(c) - base for c in qs]
-            if nc is not None and mode == "both":
+            if cut is None:
+                start, stop = 0, len(s)
+            elif nc is not None and mode == "both":
                 ns = R.nextseq_trim(s, q, nc)
                 start, stop = R.qtrim(q[:ns], a, b)
             elif nc is not None:
@@ -242,6 +247,14 @@ def cli_case(ctx, rng, k):
                 ctx.violation("cli-accounting", f"quality_trimmed_read{side+1} is null but {total[side]} bases were removed", case)
         elif got[side] != total[side]:
             ctx.violation("cli-accounting", f"quality_trimmed_read{side+1}={got[side]} but {total[side]} bases were removed; argv={argv}", case)
+    if not minimal and len(outs) > 1:
+        # the full text report names the read each per-read line belongs to
+        from ..filtermon import parse_text_report
+        tr = parse_text_report(res.out)
+        want_lines = {i + 1: total[i] for i in range(2) if got[i] is not None}
+        if "quality_trimmed" in tr and tr.get("_per_read:quality_trimmed") != want_lines:
+            ctx.violation("cli-accounting", f"text report lines below 'Quality-trimmed': {tr.get('_per_read:quality_trimmed')}, removed from R1/R2: {want_lines}; argv={argv}", case, klass="text")
+        ctx.count("text_reports_checked")
     if minimal:
         # the one-line report: qualtrim_bp is what was removed from R1, qualtrim2_bp what was removed from R2
         from ..filtermon import parse_minimal_report
